@@ -21,7 +21,8 @@ PROP = {
                    "reference merge; ResetKey = List.set; copy = same sequence; all keep balance, capacities, count and sortedness. History "
                    "theorem C02_history: for every finite history of all these operations from the empty container the model's sequence equals "
                    "the reference sequence and the invariants hold. The executable model is compared with the real containers operation by "
-                   "operation (results, positions, traversals, bounds, complete node shape) on every run."),
+                   "operation (results, positions, traversals, bounds, complete node shape) on every run."
+                   " TreeNode::GetSplitItemIndex is additionally TRANSLATED from the header text on every run (tools/translate.py) and proved equal to the model's split rule (C02_splitIdx_translated)."),
     "level_note": ("Nothing is left partial at the level of the model. Trusted: Lean kernel, the three standard axioms (the reference semantics "
                    "of merge tests well-formedness of the other container classically), extractor, correspondence harness (g++ -fno-access-control, "
                    "ASan+UBSan). Modelled not verified: parent pointers (abstracted to paths; the bottom-up loops are unwound along the path), item "
@@ -48,6 +49,7 @@ PROP = {
         "Momo.BTree.C02_copy",
         "Momo.BTree.C02_history",
         "Momo.BTree.C02_history_core",
+        "Momo.BTree.C02_splitIdx_translated",
     ],
     "harnesses": [
         {"name": "c02_btree_p%d" % k, "src": "c02_btree.cpp", "sanitize": "asan", "flags": ["-DC02_PART=%d" % k, "-O0"],
